@@ -386,8 +386,11 @@ class Channel(BaseChannel):
         if not self.consumer_tags:
             return
         if not self.is_closed:
+            # Each cancel removes its own tag; a consumer added meanwhile by
+            # another thread has not been cancelled and stays listed.
             for tag in list(self.consumer_tags):
                 self.basic.cancel(tag)
+            return
         self.remove_consumer_tag()
 
     def write_frame(self, frame_out):
